@@ -156,6 +156,27 @@ func solveAll(obls []*Obligation, opts solveOpts) {
 	wg.Wait()
 }
 
+// solveRobust: obligations that are not discharged on the first (highly parallel) pass are tried again, a few at
+// a time and with a doubled timeout, so that a loaded machine does not turn into spurious alarms.
+func solveRobust(obls []*Obligation, opts solveOpts) {
+	solveAll(obls, opts)
+	var again []*Obligation
+	for _, o := range obls {
+		if o.Preset || o.ExpectSat || o.Result == "unsat" || o.Result == "sat" {
+			continue
+		}
+		o.Result = ""
+		again = append(again, o)
+	}
+	if len(again) == 0 {
+		return
+	}
+	r := opts
+	r.Jobs = 3
+	r.TimeoutS = opts.TimeoutS * 2
+	solveAll(again, r)
+}
+
 // ok reports whether the obligation is in its expected state.
 func (o *Obligation) ok() bool {
 	if o.ExpectSat {
